@@ -33,7 +33,8 @@ GROUP = 'C(C)(H)3'
 BOUND = {'quick': '96 records x 54 mode combinations (3 modes for each of H, S, Cp '
                   'x 2 temperature modes), units rotating through 6 enthalpy, 4 '
                   'entropy/heat-capacity and 3 temperature units; 4 missing-unit '
-                  'files per record class',
+                  'files per record class; every 298.15 K record also without a '
+                  'T_ref line (54 mode combinations)',
          'thorough': 'additionally the full product of modes and units for a '
                      '6-record core (every zero/non-zero combination)'}
 RULE = ('every presentation of every record is loaded; its reference values, '
@@ -89,7 +90,8 @@ def num(x):
     return repr(float(x))
 
 
-def render(rec, mH, mS, mC, mT, uH, uS, uC, uT, R0, drop_default=None):
+def render(rec, mH, mS, mC, mT, uH, uS, uC, uT, R0, drop_default=None,
+           omit_tref=False):
     """-> YAML text.  m* in MODES (mT in default/explicit)."""
     units = {}
 
@@ -100,7 +102,8 @@ def render(rec, mH, mS, mC, mT, uH, uS, uC, uT, R0, drop_default=None):
             return num(v)
         return '%s %s' % (num(v), uT)
     lines = []
-    lines.append('      T_ref: %s' % temp(rec['tref']))
+    if not omit_tref:
+        lines.append('      T_ref: %s' % temp(rec['tref']))
     Hj = rec['H'] * 4184.0
     Sj = rec['S'] * 4.184
     if mH == 'nd':
@@ -293,6 +296,49 @@ def run_record(R, idx, tier, full=False, only=None):
         check(R, rec, p, R0, base_obs, dict(kind='pres', record=idx, pres=list(p)))
 
 
+def run_default_tref(R, idx, only=None):
+    """Records whose T_ref is the documented default (298.15 K) written
+    WITHOUT a T_ref line, in every mode combination."""
+    rec = records()[idx]
+    if rec['tref'] != 298.15:
+        return
+    if not rec['range'] and len(rec['table']) == 1:
+        return      # zero-width valid interval (see observe())
+    R0 = gas_constant()
+    base = load_text(render(rec, 'nd', 'nd', 'nd', 'explicit', 'J/mol', 'J/mol/K',
+                            'J/mol/K', 'K', R0))[GROUP]['thermochem']
+    base_obs = observe(base, rec)
+    for n, (mH, mS, mC) in enumerate(itertools.product(MODES, repeat=3)):
+        for mT in ('default', 'explicit'):
+            pres = (mH, mS, mC, mT, H_UNITS[n % len(H_UNITS)], S_UNITS[n % 4],
+                    S_UNITS[(n + 1) % 4], T_UNITS[n % 3])
+            if only is not None and list(pres) != only:
+                continue
+            text = render(rec, *pres, R0, omit_tref=True)
+            R.evals += 1
+            R.nontrivial += 1
+            wit = dict(kind='tref-default', record=idx, pres=list(pres))
+            try:
+                k = load_text(text)[GROUP]['thermochem']
+            except Exception as e:      # noqa
+                R.outcomes['default-T_ref:load-failed'] += 1
+                R.violation('default-T_ref:load-failed:%s' % type(e).__name__,
+                            '%r without a T_ref line (default 298.15 K), presented as %r, '
+                            'cannot be loaded: %s\n%s' % (short(rec), pres, e, text), wit)
+                continue
+            obs = observe(k, rec)
+            bad = abs(float(k.T_ref) - 298.15) > 1e-9 or any(
+                a[0] != b[0] or (a[0] == 'ok' and abs(float(a[1]) - float(b[1])) >
+                                 (1e-6 if pres[4] == 'eV/molecule' and mH != 'nd' else 1e-9)
+                                 * max(1.0, abs(float(b[1]))))
+                for a, b in zip(obs, base_obs))
+            R.outcomes['default-T_ref:%s' % ('differs' if bad else 'same')] += 1
+            if bad:
+                R.violation('default-T_ref:differs', '%r without a T_ref line, presented '
+                            'as %r: T_ref=%r, getters %r vs %r' % (
+                                short(rec), pres, k.T_ref, obs[:3], base_obs[:3]), wit)
+
+
 def run_missing(R):
     """A dimensional value with no unit available must be rejected."""
     R0 = gas_constant()
@@ -343,6 +389,7 @@ def run_shard(shard, tier):
     R = Result()
     if shard[0] == 'rec':
         run_record(R, shard[1], tier)
+        run_default_tref(R, shard[1])
     elif shard[0] == 'full':
         run_record(R, shard[1], tier, full=True)
     else:
@@ -358,5 +405,7 @@ def replay(w):
             run_record(R, w['record'], 'quick', only=w['pres'])
     elif w['kind'] == 'missing':
         run_missing(R)
+    elif w['kind'] == 'tref-default':
+        run_default_tref(R, w['record'], only=w['pres'])
     return dict(violates=bool(R.violations),
                 detail='\n'.join(v['msg'] for v in R.violations[:3]) or 'holds')
